@@ -6,6 +6,7 @@ import (
 	"fmt"
 	"reflect"
 	"runtime"
+	"strings"
 	"testing"
 
 	saml2 "github.com/russellhaering/gosaml2"
@@ -305,6 +306,7 @@ func TestC12_Replay(t *testing.T) {
 	h.RunReplay(t, "C12.twin", checkC12Twin)
 	h.RunReplay(t, "C12.enc", checkC12Enc)
 	h.RunReplay(t, "C12.stored", checkC12Stored)
+	h.RunReplay(t, "C12.small", checkC12Twin)
 }
 
 // TestC12_Grid: the exact boundary for every limit and entry point, plus the default limit and a bomb.
@@ -373,9 +375,77 @@ func genC12Twin(t *rapid.T) C12Twin {
 	return tw
 }
 
+// genC12Small: small documents whose longest repeated substring has a chosen length. The first byte of the
+// stream Go's compressor emits for them is (HLIT<<3)|4 with HLIT fixed by the longest match, so the compressed
+// presentations begin with very different bytes (control characters, digits, letters, '<', '|', ...): whatever
+// the decoder guesses from the first bytes of the input must not change the outcome.
+func genC12Small(t *rapid.T) C12Twin {
+	tw := C12Twin{SP: h.BaseSP(), Level: rapid.SampledFrom([]int{-1, -1, 1, 2, 5, 6, 9, -2, 0}).Draw(t, "level")}
+	tw.SP.Skip = rapid.Bool().Draw(t, "skip")
+	tw.Kind = rapid.SampledFrom([]string{"Response", "LogoutRequest", "LogoutResponse"}).Draw(t, "kind")
+	L := rapid.IntRange(3, 40).Draw(t, "longestMatch")
+	if rapid.IntRange(0, 3).Draw(t, "longMatch") == 0 {
+		L = rapid.IntRange(3, 258).Draw(t, "longestMatchAny")
+	}
+	start := rapid.IntRange(0, 82).Draw(t, "alphaStart")
+	step := rapid.SampledFrom([]int{1, 3, 5, 7, 11, 13}).Draw(t, "alphaStep")
+	filler := rapid.StringMatching(`[a-zA-Z0-9 ]{0,120}`).Draw(t, "filler")
+	full := rapid.IntRange(0, 2).Draw(t, "withIssuer") == 0
+	tw.RawXML, tw.Source = smallDoc(tw.SP, tw.Kind, L, start, step, filler, full), fmt.Sprintf("small L=%d", L)
+	return tw
+}
+
+// smallDoc: a small protocol message with a comment that holds one string of length L twice.
+func smallDoc(sp h.SPConfig, kind string, L, start, step int, filler string, full bool) string {
+	// a string without inner repeats: code points of a large alphabet at a fixed stride
+	alpha := []rune("abcdefghijklmnopqrstuvwxyzABCDEFGHIJKLMNOPQRSTUVWXYZ013456789_-+*/%$#@!~^(){}[];,")
+	rep := make([]rune, L)
+	for i := range rep {
+		rep[i] = alpha[(start+i*step+(i/len(alpha))*17)%len(alpha)]
+	}
+	var sb strings.Builder
+	dest := sp.SLO
+	if kind == "Response" {
+		dest = sp.ACS
+	}
+	sb.WriteString("<" + kind + ` xmlns="urn:oasis:names:tc:SAML:2.0:protocol" ID="_q" Version="2.0" Destination="` + dest + `">`)
+	// a second SAML namespace (Issuer, Status) repeats 35 characters of the first and so fixes the longest
+	// match; two thirds of the documents do without (they are rejected for the missing Issuer — identically
+	// in both presentations, which is all that is compared here)
+	if full {
+		sb.WriteString(`<Issuer xmlns="urn:oasis:names:tc:SAML:2.0:assertion">` + sp.IdPIssuer + `</Issuer>`)
+	}
+	sb.WriteString("<!--" + string(rep) + "|" + filler + "|" + string(rep) + "-->")
+	if kind == "LogoutResponse" && full {
+		sb.WriteString(`<Status><StatusCode Value="urn:oasis:names:tc:SAML:2.0:status:Success"/></Status>`)
+	}
+	sb.WriteString("</" + kind + ">")
+	return sb.String()
+}
+
+// TestC12_GridSmall: every longest-match length 3..48 x message kind x compression level, so that every
+// first byte Go's compressor can produce for a small document is presented.
+func TestC12_GridSmall(t *testing.T) {
+	var cases []C12Twin
+	for ki, kind := range []string{"Response", "LogoutRequest", "LogoutResponse"} {
+		for L := 3; L <= 48; L++ {
+			for li, level := range []int{-1, 1, 4, 9} {
+				sp := h.BaseSP()
+				sp.Skip = (L+li)%2 == 0
+				cases = append(cases, C12Twin{SP: sp, Kind: kind, Level: level, Source: fmt.Sprintf("small L=%d", L),
+					RawXML: smallDoc(sp, kind, L, L+ki, []int{1, 3, 5, 7}[li], "the quick brown fox"[:(L*3)%19], (L+ki+li)%3 == 0)})
+			}
+		}
+	}
+	h.RunCases(t, "C12.small", cases, checkC12Twin)
+}
+
 func checkC12Twin(c C12Twin) h.Outcome {
 	o := h.Outcome{NonTrivial: true, Classes: []string{"twin:" + c.Kind, fmt.Sprintf("level:%d", c.Level), fmt.Sprintf("limitSet:%v", c.SP.MaxSize != 0)}}
 	rawIn := base64.StdEncoding.EncodeToString([]byte(c.RawXML))
+	if d := h.Deflate([]byte(c.RawXML), c.Level); len(d) > 0 {
+		o.Classes = append(o.Classes, fmt.Sprintf("firstbyte:%02x", d[0]))
+	}
 	compIn := base64.StdEncoding.EncodeToString(h.Deflate([]byte(c.RawXML), c.Level))
 	for _, e := range c12Entries {
 		r1, e1 := e.f(c.SP.Build(), rawIn)
@@ -581,6 +651,8 @@ func checkC12Stored(c C12Stored) h.Outcome {
 	}
 	return o
 }
+
+func TestC12_PSmall(t *testing.T) { h.RunProp(t, "C12.small", genC12Small, checkC12Twin) }
 
 func TestC12_PStored(t *testing.T) { h.RunProp(t, "C12.stored", genC12Stored, checkC12Stored) }
 
